@@ -275,6 +275,132 @@ macro_rules! swh_entry {
     };
 }
 
+// ------------------------------------------------------------------------------------------------
+// user-written per-value metadata (public API: GcBuilder::new_with_type_and_ptr_meta): slices whose
+// length is stored in a metadata type narrower than a word, or in an odd-sized record
+
+pub trait LenMeta: Copy + Send + 'static {
+    fn from_len(len: usize) -> Self;
+    fn len(self) -> usize;
+}
+impl LenMeta for u8 {
+    fn from_len(len: usize) -> Self {
+        len as u8
+    }
+    fn len(self) -> usize {
+        self as usize
+    }
+}
+impl LenMeta for u16 {
+    fn from_len(len: usize) -> Self {
+        len as u16
+    }
+    fn len(self) -> usize {
+        self as usize
+    }
+}
+impl LenMeta for u32 {
+    fn from_len(len: usize) -> Self {
+        len as u32
+    }
+    fn len(self) -> usize {
+        self as usize
+    }
+}
+/// a 12-byte record: the length is not the first field
+#[derive(Clone, Copy)]
+#[repr(C)]
+pub struct Rec12 {
+    tag_a: u32,
+    len: u32,
+    tag_b: u32,
+}
+impl LenMeta for Rec12 {
+    fn from_len(len: usize) -> Self {
+        Rec12 { tag_a: 0xA5A5_A5A5, len: len as u32, tag_b: 0x5A5A_5A5A }
+    }
+    fn len(self) -> usize {
+        if self.tag_a != 0xA5A5_A5A5 || self.tag_b != 0x5A5A_5A5A { usize::MAX } else { self.len as usize }
+    }
+}
+/// over-aligned metadata
+#[derive(Clone, Copy)]
+#[repr(C, align(32))]
+pub struct Len32(u64);
+impl LenMeta for Len32 {
+    fn from_len(len: usize) -> Self {
+        Len32(len as u64)
+    }
+    fn len(self) -> usize {
+        self.0 as usize
+    }
+}
+
+pub struct UserSliceMeta<L>(std::marker::PhantomData<L>);
+impl<E, L: LenMeta> gc_arena::meta::PtrMeta<[E], ()> for UserSliceMeta<L> {
+    type PtrMetadata = L;
+    type Thin = ();
+    fn to_thin(_: &'static (), fat: *const [E]) -> *const () {
+        fat as *const ()
+    }
+    fn from_thin(_: &'static (), thin: *const (), m: L) -> *const [E] {
+        std::ptr::slice_from_raw_parts(thin as *const E, m.len())
+    }
+}
+impl<E, L: LenMeta> gc_arena::meta::AllocMeta<[E], ()> for UserSliceMeta<L> {
+    fn layout(_: &'static (), m: L) -> Option<std::alloc::Layout> {
+        std::alloc::Layout::array::<E>(m.len()).ok()
+    }
+}
+type UserFat<'gc, E, L> = gc_arena::GcFat<'gc, [E], (), UserSliceMeta<L>>;
+type UserThin<'gc, E, L> = gc_arena::GcThin<'gc, [E], (), UserSliceMeta<L>>;
+
+fn make_user<'gc, E: 'static + Copy, L: LenMeta>(mc: &Mutation<'gc>, len: usize, seed: u64, zero: E) -> Made<'gc> {
+    let g: UserFat<'gc, Static<E>, L> = {
+        let _t = crate::seam::track();
+        // SAFETY: UserSliceMeta is a correct PtrMeta / AllocMeta for [E] with unit type metadata
+        unsafe {
+            let mut b = gc_arena::GcBuilder::<[Static<E>], (), UserSliceMeta<L>>::new_with_type_and_ptr_meta::<gc_arena::meta::UnitTypeMeta>(L::from_len(len));
+            let p = b.as_ptr() as *mut Static<E>;
+            for i in 0..len {
+                p.add(i).write(Static(zero));
+            }
+            b.assume_init(mc)
+        }
+    };
+    let p = Gc::as_ptr(g) as *const E;
+    let (size, align) = (size_of::<E>() * len, align_of::<E>());
+    unsafe { fill(p as *mut u8, size, seed, false) };
+    let mut roundtrip = None;
+    if g.len() != len {
+        roundtrip = Some(format!("allocated with length {len}, reads length {}", g.len()));
+    }
+    let thin: UserThin<'gc, Static<E>, L> = Gc::as_thin(g);
+    let fat = Gc::as_fat(thin);
+    if fat.len() != len || thin.len() != len || Gc::as_ptr(fat) as *const E != p {
+        roundtrip = Some(format!("as_thin -> as_fat (user metadata of {} bytes): length {} / {}, address equal {}", size_of::<L>(), thin.len(), fat.len(), Gc::as_ptr(fat) as *const E == p));
+    }
+    Made { ptr: Gc::erase(g), addr: p as usize, size, align, roundtrip }
+}
+fn check_user<'gc, E: 'static, L: LenMeta>(ptr: Gc<'gc, ()>, len: usize, seed: u64) -> Result<(), String> {
+    let thin: UserThin<'gc, Static<E>, L> = unsafe { Gc::from_thin_ptr_with_kind(Gc::as_ptr(ptr)) };
+    let fat = Gc::as_fat(thin);
+    if fat.len() != len {
+        return Err(format!("re-fattened slice (user metadata of {} bytes) has length {}, allocated with {len}", size_of::<L>(), fat.len()));
+    }
+    unsafe { verify(Gc::as_ptr(fat) as *const u8, size_of::<E>() * len, seed, false) }
+}
+macro_rules! user_entry {
+    ($name:literal, $e:ty, $zero:expr, $l:ty) => {
+        LayVt {
+            name: $name,
+            class: LayClass::Slice,
+            make: |mc, len, seed| make_user::<$e, $l>(mc, len, seed, $zero),
+            check: |p, len, seed| check_user::<$e, $l>(p, len, seed),
+        }
+    };
+}
+
 #[derive(Clone, Copy)]
 #[repr(align(64))]
 pub struct Z64;
@@ -307,6 +433,10 @@ pub static LAYS: &[LayVt] = &[
     swh_entry!("swh<Z64,u8>", Z64, Z64, u8, 0), swh_entry!("swh<u32,()>", u32, 0, (), ()), swh_entry!("swh<(),()>", (), (), (), ()),
     swh_entry!("swh<A64,A128>", A64<64>, A64([0; 64]), A128<128>, A128([0; 128])), swh_entry!("swh<[u8;3],Z2>", [u8; 3], [0; 3], Z2, Z2),
     swh_entry!("swh<u128,u32>", u128, 0, u32, 0), swh_entry!("swh<A1024,u8>", A1024<1024>, A1024([0; 1024]), u8, 0),
+    // user-written per-value metadata: narrow, odd-sized, over-aligned
+    user_entry!("user<u8>[u16]", u16, 0, u8), user_entry!("user<u16>[u64]", u64, 0, u16), user_entry!("user<u32>[u8]", u8, 0, u32),
+    user_entry!("user<u32>[u128]", u128, 0, u32), user_entry!("user<Rec12>[u32]", u32, 0, Rec12), user_entry!("user<Len32>[u8]", u8, 0, Len32),
+    user_entry!("user<u8>[A64]", A64<64>, A64([0; 64]), u8),
 ];
 
 pub const MAX_LEN: usize = 17;
